@@ -576,3 +576,158 @@ Proof.
   apply rl_sim_peek_else_err; [discriminate|apply rl_sim_rootops_block|].
   unfold rgl_rootops. apply rl_requires_seq_sat.
 Qed.
+
+(* ------------------------------------------------------------------ directive definition *)
+Lemma rl_location_view d : g_directive_location_kw d = None <-> rg_is_location (TkName, d) = false.
+Proof.
+  unfold g_directive_location_kw, rg_is_location, rg_is_in, rg_exec_locations, rg_ts_locations.
+  cbn [fst snd tkind_eqb andb app existsb].
+  change (p_str_eqb d pkw_QUERY) with (rg_streq d rg_s_QUERY).
+  change (p_str_eqb d pkw_MUTATION) with (rg_streq d rg_s_MUTATION).
+  change (p_str_eqb d pkw_SUBSCRIPTION) with (rg_streq d rg_s_SUBSCRIPTION).
+  change (p_str_eqb d pkw_FIELD) with (rg_streq d rg_s_FIELD).
+  change (p_str_eqb d pkw_FRAGMENT_DEFINITION) with (rg_streq d rg_s_FRAGMENT_DEFINITION).
+  change (p_str_eqb d pkw_FRAGMENT_SPREAD) with (rg_streq d rg_s_FRAGMENT_SPREAD).
+  change (p_str_eqb d pkw_INLINE_FRAGMENT) with (rg_streq d rg_s_INLINE_FRAGMENT).
+  change (p_str_eqb d pkw_VARIABLE_DEFINITION) with (rg_streq d rg_s_VARIABLE_DEFINITION).
+  change (p_str_eqb d pkw_SCHEMA) with (rg_streq d rg_s_SCHEMA).
+  change (p_str_eqb d pkw_SCALAR) with (rg_streq d rg_s_SCALAR).
+  change (p_str_eqb d pkw_OBJECT) with (rg_streq d rg_s_OBJECT).
+  change (p_str_eqb d pkw_FIELD_DEFINITION) with (rg_streq d rg_s_FIELD_DEFINITION).
+  change (p_str_eqb d pkw_ARGUMENT_DEFINITION) with (rg_streq d rg_s_ARGUMENT_DEFINITION).
+  change (p_str_eqb d pkw_INTERFACE) with (rg_streq d rg_s_INTERFACE).
+  change (p_str_eqb d pkw_UNION) with (rg_streq d rg_s_UNION).
+  change (p_str_eqb d pkw_ENUM) with (rg_streq d rg_s_ENUM).
+  change (p_str_eqb d pkw_ENUM_VALUE) with (rg_streq d rg_s_ENUM_VALUE).
+  change (p_str_eqb d pkw_INPUT_OBJECT) with (rg_streq d rg_s_INPUT_OBJECT).
+  change (p_str_eqb d pkw_INPUT_FIELD_DEFINITION) with (rg_streq d rg_s_INPUT_FIELD_DEFINITION).
+  rewrite !(rg_streq_sym _ d).
+  (* one comparison at a time: as soon as one holds both sides are decided (linear, not 2^19 cases) *)
+  repeat match goal with
+         | |- context [rg_streq d ?w] =>
+             destruct (rg_streq d w); [cbn; split; intros H; discriminate H|cbn [orb]]
+         end.
+  cbn. split; intros H; reflexivity.
+Qed.
+
+Lemma rl_gen_directive_location : rl_gen g_directive_location.
+Proof. split; [apply (gg_directive_location CT CT_ok)|apply (gg_directive_location CX CX_ok)]. Qed.
+
+Lemma rl_sim_directive_location : rl_sim rl_any g_directive_location (rg_sat rg_is_location).
+Proof.
+  split; [apply rl_gen_directive_location|]. intros s u s' E Hok Ht _. pose proof Hok as [Hinv Ha].
+  destruct (rl_inv_cur _ Hinv) as (t & Hc & Hi & _).
+  unfold g_directive_location in E. unfold p_bind at 1 in E. rewrite (peek_token_some t s Hc) in E.
+  pose proof (rl_sigs_head _ _ Hinv Hc) as Hhead.
+  destruct (tkind_eqb (tok_kind t) TkName) eqn:Hk.
+  - apply tkind_eqb_eq in Hk. rewrite Hk in Hhead. cbn [tkind_eqb] in Hhead.
+    destruct (g_directive_location_kw (tok_data t)) as [kw|] eqn:Ekw.
+    + assert (Hloc : rg_is_location (TkName, tok_data t) = true).
+      { destruct (rg_is_location (TkName, tok_data t)) eqn:El; [reflexivity|]. apply rl_location_view in El. congruence. }
+      apply (proj2 (rl_sim_node_bump SK_DIRECTIVE_LOCATION kw rg_is_location) s u s' E Hok Ht).
+      rewrite Hhead. exact Hloc.
+    + apply rl_post_dirty; [eapply rl_err_run; eauto|]. rewrite Hhead. cbn [rg_sat].
+      rewrite (proj1 (rl_location_view _) Ekw). reflexivity.
+  - apply rl_post_dirty; [eapply rl_err_run; eauto|]. rewrite Hhead.
+    destruct (tkind_eqb (tok_kind t) TkEof); [reflexivity|]. cbn [rg_sat]. unfold rg_is_location, rg_is_in. cbn [fst].
+    destruct (tok_kind t); try reflexivity. discriminate Hk.
+Qed.
+
+Lemma rl_sim_directive_locations f : rl_sim rl_any (g_directive_locations f) rg_dirlocs.
+Proof.
+  unfold g_directive_locations, rg_dirlocs.
+  apply rl_sim_separated; [discriminate|apply rl_sim_directive_location|apply rg_progress_nolonger, rg_progress_sat].
+Qed.
+
+(* `on`, compared by its data only *)
+Lemma rl_sim_on_kw :
+  rl_sim rl_any
+    (d <- p_peek_data ;;
+     match d with Some node_ => if p_str_eqb node_ pkw_on then p_bump SK_on_KW else p_err | None => p_ret tt end)
+    (rg_sat (rg_is_kw rg_s_on)).
+Proof.
+  split.
+  { apply rl_gen_bind; [split; [apply (g_peek_data CT CT_ok)|apply (g_peek_data CX CX_ok)]|].
+    intros [d|]; [|apply rl_gen_ret]. destruct (p_str_eqb d pkw_on); [apply rl_gen_bump|apply rl_gen_err]. }
+  intros s u s' E Hok Ht _. pose proof Hok as [Hinv Ha]. destruct (rl_inv_cur _ Hinv) as (t & Hc & Hi & _).
+  unfold p_bind in E. rewrite (peek_data_some t s Hc) in E.
+  pose proof (rl_peek_data_view _ _ pkw_on Hinv Hc eq_refl) as Hv.
+  change (rg_is_kw pkw_on) with (rg_is_kw rg_s_on) in Hv. rewrite Hv in E.
+  destruct (rl_head_is (rg_is_kw rg_s_on) (rl_sigs s)) eqn:Hh.
+  - apply (proj2 (rl_sim_bump SK_on_KW (rg_is_kw rg_s_on)) s u s' E Hok Ht). apply rl_starts_head. exact Hh.
+  - apply rl_post_dirty; [eapply rl_err_run; eauto|]. destruct (rl_sigs s) as [|t0 ts]; [reflexivity|].
+    cbn [rl_head_is] in Hh. cbn [rg_sat]. rewrite Hh. reflexivity.
+Qed.
+
+Definition rg_is_loc_start (t : rg_token) : bool := rg_is TkName t || rg_is TkPipe t.
+Lemma rg_is_loc_start_in t : rg_is_loc_start t = rl_kind_in [TkName; TkPipe] t.
+Proof. destruct t as [[] d]; reflexivity. Qed.
+Lemma rl_requires_dirlocs : rl_requires rg_is_loc_start rg_dirlocs.
+Proof.
+  intros ts H. unfold rg_dirlocs, rg_seq, rg_opt, rg_bind. destruct ts as [|[k d] r]; [reflexivity|].
+  cbn [rl_head_is] in H. unfold rg_is_loc_start, rg_is in H. cbn [fst] in H.
+  destruct k; try discriminate H; reflexivity.
+Qed.
+
+(* the tail of directive_definition, bottom up *)
+Definition g_dirdef_locs (f : nat) : PM unit :=
+  l <- g_peek_in [TkName; TkPipe] ;;
+  if l then p_node SK_DIRECTIVE_LOCATIONS (g_directive_locations f) else p_err.
+Definition g_dirdef_on (f : nat) : PM unit :=
+  d <- p_peek_data ;;
+  match d with Some node_ => if p_str_eqb node_ pkw_on then p_bump SK_on_KW else p_err | None => p_ret tt end ;;
+  g_dirdef_locs f.
+Definition g_dirdef_repeatable (f : nat) : PM unit :=
+  r <- g_peek_data_is pkw_repeatable ;; p_when r (p_bump SK_repeatable_KW) ;; g_dirdef_on f.
+Definition g_dirdef_named (f : nat) : PM unit :=
+  g_name ;; g_if_peek TkLParen (p_node SK_ARGUMENTS_DEFINITION (g_arguments_definition_body f)) ;; g_dirdef_repeatable f.
+
+Lemma rl_sim_dirdef_locs f : rl_sim rl_any (g_dirdef_locs f) rg_dirlocs.
+Proof.
+  unfold g_dirdef_locs.
+  eapply rl_sim_peek_in_else_err with (f := rg_is_loc_start);
+    [cbn; intuition discriminate|apply rg_is_loc_start_in| |apply rl_requires_dirlocs].
+  apply rl_sim_any. apply rl_sim_node. apply rl_sim_directive_locations.
+Qed.
+Lemma rl_sim_dirdef_on f : rl_sim rl_any (g_dirdef_on f) (rg_seq (rg_sat (rg_is_kw rg_s_on)) rg_dirlocs).
+Proof.
+  unfold g_dirdef_on.
+  apply (rl_sim_fext rl_any
+    ((d <- p_peek_data ;;
+      match d with Some node_ => if p_str_eqb node_ pkw_on then p_bump SK_on_KW else p_err | None => p_ret tt end) ;;
+     g_dirdef_locs f)).
+  { intros s. apply p_bind_assoc. }
+  apply rl_sim_bind; [apply rl_sim_on_kw|intros _; apply rl_sim_dirdef_locs].
+Qed.
+Lemma rl_sim_dirdef_repeatable f :
+  rl_sim rl_any (g_dirdef_repeatable f)
+    (rg_seq (rg_opt (rg_is_kw rg_s_repeatable) (rg_sat (rg_is_kw rg_s_repeatable)))
+       (rg_seq (rg_sat (rg_is_kw rg_s_on)) rg_dirlocs)).
+Proof.
+  unfold g_dirdef_repeatable.
+  apply (rl_sim_fext rl_any ((r <- g_peek_data_is pkw_repeatable ;; p_when r (p_bump SK_repeatable_KW)) ;; g_dirdef_on f)).
+  { intros s. apply p_bind_assoc. }
+  apply rl_sim_bind; [|intros _; apply rl_sim_dirdef_on].
+  apply (rl_sim_if_kw rl_any pkw_repeatable); [reflexivity|].
+  eapply rl_sim_weaken; [|apply rl_sim_bump]. intros ts [_ H]. exact H.
+Qed.
+Lemma rl_sim_dirdef_named f : rl_sim rl_any (g_dirdef_named f) (rg_seq rg_name (rgl_dirdef_tail LP)).
+Proof.
+  unfold g_dirdef_named, rgl_dirdef_tail. apply rl_sim_bind; [apply rl_sim_name|intros _].
+  apply rl_sim_bind; [|intros _; apply rl_sim_dirdef_repeatable].
+  apply rl_sim_if_peek; [discriminate|]. apply rl_sim_node. apply rl_sim_arguments_definition_body.
+Qed.
+
+Lemma rl_sim_directive_definition f :
+  rl_sim (rl_desc_kw pkw_directive) (g_directive_definition f)
+    (rg_seq rg_desc_opt (rg_seq (rg_sat (rg_is_kw pkw_directive))
+       (rg_seq (rg_sat (rg_is TkAt)) (rg_seq rg_name (rgl_dirdef_tail LP))))).
+Proof.
+  unfold g_directive_definition. apply rl_sim_node.
+  apply rl_sim_desc_kw_rest; [reflexivity|].
+  apply (rl_sim_fext rl_any ((a <- g_peek_is TkAt ;; if a then p_bump SK_AT else p_err) ;; g_dirdef_named f)).
+  { intros s. apply p_bind_assoc. }
+  apply rl_sim_bind; [|intros _; apply rl_sim_dirdef_named].
+  apply rl_sim_peek_else_err; [discriminate|apply rl_sim_bump|].
+  intros [|t ts] H; cbn [rl_head_is] in H; [reflexivity|]. cbn [rg_sat]. rewrite H. reflexivity.
+Qed.
